@@ -194,6 +194,37 @@ func propC14(r *Run) {
 				w.confinement()
 				continue
 			}
+			if r.Choose("two-writers-one-instance", 8) == 0 {
+				// two goroutines of one program add two users through the same instance at the same
+				// time (its hashers are shared; their statements are scheduling points): both records
+				// are written exactly as the schema and the configuration say, each with its own salt
+				ua, ub := fmt.Sprintf("twin%da", i), fmt.Sprintf("twin%db", i)
+				pwa, pwb := fmt.Sprintf("twin-password-%d-a", i), fmt.Sprintf("twin-password-%d-b", i)
+				var ea, eb error
+				d := w.dirs[inst]
+				seg0 := w.segPos
+				w.libYields = true
+				_, sw := w.interleaveReader(w.fs, func() { ea = d.AddUser(ua, pwa, false) }, func(*[]readerObs) { eb = d.AddUser(ub, pwb, false) })
+				w.libYields = false
+				r.Logf("#%d t=%d inst%d add %s || add %s on one instance -> %v, %v (%d context switches)", i, time.Now().Unix(), inst, ua, ub, ea, eb, sw)
+				r.Count("probe:two-writers-one-instance")
+				if ea != nil || eb != nil {
+					r.Fail("write/failed", "two concurrent adds of different users through one instance failed on a healthy store: %v, %v", ea, eb)
+				}
+				w.mAdd(ua, pwa, false, inst)
+				w.mAdd(ub, pwb, false, inst)
+				for _, tu := range []string{ua, ub} {
+					w.segPos = seg0
+					w.checkWritten(inst, tu)
+					rec, _, _ := w.recordOf(tu)
+					if salts[string(rec.Salt)] {
+						r.Fail("record/salt-reused", "salt %x used by two writes", rec.Salt)
+					}
+					salts[string(rec.Salt)] = true
+				}
+				w.confinement()
+				continue
+			}
 			if _, ok := w.model[u]; ok {
 				w.guard("update", func() { err = w.dirs[inst].UpdateUser(u, pw) })
 				w.mUpdate(u, pw, inst)
